@@ -151,4 +151,4 @@ def execute(case):
     return Result(v, nontrivial=(fanout or fanin or stateful) and busy, classes=classes)
 
 
-PARTS = [Part("pipelines", case_strategy, execute, quick=700, thorough=12000)]
+PARTS = [Part("pipelines", case_strategy, execute, quick=2400, thorough=12000)]
